@@ -21,6 +21,8 @@ def fact_key(v):
         return ("any", v.path)
     if isinstance(v, SymStr):
         return ("str", v.name)
+    if isinstance(v, External):
+        return ("ext", v.name)
     return None
 
 
